@@ -25,6 +25,7 @@ Template directives (all start with `//@@`; payloads in <<< >>> may span lines):
   //@@ POST <<<text>>>                   insert at the end of the body (before `}`)
   //@@ R7 <writer-ident>                 rule R7, mechanical: every write!(W, FMT, ..)? / W.write_all(..)? becomes
                                          emit_last / emit_byte of the LAST byte written; dead lets are dropped
+  //@@ R12                               rule R12: code under #[cfg(feature = "tracing")] removed (feature off), #[allow(..)] dropped
   //@@ R10 <writer-ident>                rule R10, mechanical: every write!/writeln!(W, FMT, ..) / W.write_all(b"..") becomes the
                                          sequence of typed emissions it performs (see r10_edits)
   //@@ CUT <<<start>>> <<<end>>>          drop the source text from `start` up to (not including) `end`;
@@ -306,6 +307,40 @@ def r10_edits(body, msk, writer, log, cuts=(), wexpr=None):
     return edits
 
 
+def r12_edits(body, msk, log):
+    """R12, mechanical: the crate is verified as the pinned test command builds it, i.e. WITHOUT the
+    optional `tracing` feature: every statement / block under `#[cfg(feature = "tracing")]` is removed,
+    and lint attributes (`#[allow(..)]`) inside bodies are dropped."""
+    from extract import match_close
+    edits = []
+    for m in re.finditer(r'#\[cfg\(feature\s*=\s*"tracing"\)\]', body):
+        if msk[m.start()] != '#':
+            continue
+        j = m.end()
+        while j < len(body) and body[j] in ' \t\n':
+            j += 1
+        if msk[j] == '{':
+            end = match_close(msk, j) + 1
+        elif re.match(r'if\b', msk[j:]):
+            o = msk.find('{', j)
+            end = match_close(msk, o) + 1
+        else:
+            k = j
+            while k < len(msk) and msk[k] != ';':
+                if msk[k] in '([{':
+                    k = match_close(msk, k)
+                k += 1
+            end = k + 1
+        edits.append((m.start(), end, ''))
+        log['R12 cfg(feature="tracing") code removed (feature off)'] = log.get('R12 cfg(feature="tracing") code removed (feature off)', 0) + 1
+    for m in re.finditer(r'#\[allow\([^\]]*\)\]', body):
+        if msk[m.start()] != '#':
+            continue
+        edits.append((m.start(), m.end(), ''))
+        log['R1 strip attrs/docs'] = log.get('R1 strip attrs/docs', 0) + 1
+    return edits
+
+
 def r7_edits(body, msk, writer, log, cuts=()):
     """R7, mechanical: every `write!(W, "FMT", args..)?` and `W.write_all(..)?` becomes an
     emission of the LAST BYTE the call writes:
@@ -459,11 +494,11 @@ def transform_body(body, dirs, log):
         elif kind == 'SUB':
             cnt, old, new = d[1], d[2], d[3]
             pos = [m.start() for m in re.finditer(re.escape(old), body)]
-            if len(pos) != cnt:
+            if cnt >= 0 and len(pos) != cnt:
                 raise LostAnchor(f'SUB anchor {old!r}: expected {cnt} occurrence(s), found {len(pos)}')
             for p in pos:
                 edits.append((p, p + len(old), new))
-            log['SUB rewrite'] = log.get('SUB rewrite', 0) + cnt
+            log['SUB rewrite'] = log.get('SUB rewrite', 0) + len(pos)
         elif kind in ('BEFORE', 'AFTER'):
             n, anchor, text = d[1], d[2], d[3]
             pos = [m.start() for m in re.finditer(re.escape(anchor), body)]
@@ -521,6 +556,8 @@ def transform_body(body, dirs, log):
                     if a2 >= 0 and b2 >= 0:
                         cuts.append((a2, b2))
             edits.extend(r7_edits(body, msk, d[1], log, cuts))
+        elif kind == 'R12':
+            edits.extend(r12_edits(body, msk, log))
         elif kind == 'R10':
             edits.extend(r10_edits(body, msk, d[1], log, _cut_regions(body, msk, dirs), d[2]))
         elif kind == 'PRE':
@@ -669,7 +706,7 @@ def assemble(template_path, repo):
                     elif kind in ('CLOSURE', 'LOOP'):
                         dirs.append((kind, int(toks[2]), p[0]))
                     elif kind == 'SUB':
-                        dirs.append(('SUB', int(toks[2]), p[0], p[1]))
+                        dirs.append(('SUB', -1 if toks[2] == '*' else int(toks[2]), p[0], p[1]))   # `*`: every occurrence, none is fine
                     elif kind in ('BEFORE', 'AFTER'):
                         dirs.append((kind, int(toks[2]), p[0], p[1]))
                     elif kind in ('PRE', 'POST'):
@@ -684,6 +721,8 @@ def assemble(template_path, repo):
                         dirs.append(('FORWHILE', int(toks[2])))
                     elif kind == 'R7':
                         dirs.append(('R7', toks[2]))
+                    elif kind == 'R12':
+                        dirs.append(('R12',))
                     elif kind == 'R10':
                         dirs.append(('R10', toks[2], ' '.join(toks[3:]) or None))
                     else:
